@@ -14,17 +14,28 @@
   (`filters`, `filter_spatial`; `Catalog.filter` works in place and is idempotent) and the flat index of its
   space-magnitude bin.  A generator is the list of the items it has not produced yet; the loader always produces
   the content of the file (`file`).
+
+  Attributes a catalog may bring along and that `CatalogForecast` never reads (round 2): `catalog_id` (`id`, may be
+  `None`, need not be distinct: the cache `_catalogs` is a list, nothing is keyed by id), the filter statements the
+  catalog was constructed with (`carries`: `catalog.filters == forecast.filters` although nothing was filtered,
+  the constructor only stores them) and the region the catalog is already bound to (`grid`).  The last one is read
+  by `spatial_magnitude_counts` (catalogs.py:743: `self.region`), which is why `get_expected_rates` assigns the
+  forecast's region first (forecasts.py:708 `cat.region = self.region` → `rebind`).  `payload_irrelevant`
+  (Properties/C13.lean) says that none of the three changes any observable.
 -/
 namespace ForecastIter
 
 structure Ev where
   keep : Bool      -- survives `catalog.filter(filters)` and `filter_spatial(region)`
-  cell : Nat       -- flat index (space * nMag + magnitude) of its bin
+  cell : Nat       -- flat index (space * nMag + magnitude) of its bin on the FORECAST's space-magnitude grid
+  own : Nat := cell   -- flat index of its bin on the grid of the region the catalog itself is bound to
   deriving Repr, DecidableEq
 
 structure Cat where
-  id : Nat
+  id : Option Nat            -- `catalog.catalog_id` (constructor default `None`; nothing requires distinct ids)
   events : List Ev
+  grid : Nat := 0            -- 0: `catalog.region` is (or will be taken as) the forecast's region; k > 0: another region
+  carries : Bool := false    -- `catalog.filters == forecast.filters` by construction, nothing filtered yet
   deriving Repr, DecidableEq
 
 /-- `catalog.filter(self.filters)` / `catalog.filter_spatial(self.region)` (in place, returns the catalog) -/
@@ -121,8 +132,14 @@ def nextN : Nat → St → St
 /-- `catalog.spatial_magnitude_counts()` as a flat count vector (every surviving event is assumed to lie inside the
     region: index < nBins; otherwise the library raises ValueError inside the pass of get_expected_rates, see
     `nextN` and the finding in Properties/C13.lean) -/
+def binOf (c : Cat) (e : Ev) : Nat := if c.grid = 0 then e.cell else e.own
+
 def binCounts (nBins : Nat) (c : Cat) : List Nat :=
-  (List.range nBins).map (fun j => (c.events.filter (fun e => e.cell = j)).length)
+  (List.range nBins).map (fun j => (c.events.filter (fun e => binOf c e = j)).length)
+
+/-- `cat.region = self.region` (forecasts.py:708): the catalog is counted on the forecast's grid whatever region it
+    was bound to before -/
+def rebind (c : Cat) : Cat := { c with grid := 0 }
 
 def addVec : List Nat → List Nat → List Nat
   | a :: as, b :: bs => (a + b) :: addVec as bs
@@ -149,7 +166,8 @@ def getExpectedRates (st : St) : Option (St × (List Nat × Nat)) :=
   | none =>
     match fullPass st with
     | some (st', cats) =>
-      match accumulate st.nBins cats, st'.nCat with
+      -- `cat.region = self.region; gridded_counts = cat.spatial_magnitude_counts()` for every catalog of the pass
+      match accumulate st.nBins (cats.map rebind), st'.nCat with
       | some data, some n =>
         let r := (data, n)
         some ({ st' with expectedRates := some r }, r)
